@@ -137,10 +137,10 @@ func ruleSetupFamily(c *Ctx, rule string, fns []*ssa.Function, v4 map[*ssa.Funct
 					if regexp.MustCompile(`\(net\.IP\)\.To(4|16)\(`+reQ(cs)+`(#0|#1\.IP)?\)`).MatchString(xs) && f.Kind == "nil" {
 						ipFact = true
 					}
-					if regexp.MustCompile(`len\(`+reQ(cs)+`(#0|#1\.IP)?\)`).MatchString(xs) {
+					if regexp.MustCompile(`len\(` + reQ(cs) + `(#0|#1\.IP)?\)`).MatchString(xs) {
 						ipFact = true
 					}
-					if regexp.MustCompile(`len\(`+reQ(cs)+`#1\.Mask\)|\(net\.IPMask\)\.Size\(`+reQ(cs)+`#1\.Mask\)#1`).MatchString(xs) {
+					if regexp.MustCompile(`len\(` + reQ(cs) + `#1\.Mask\)|\(net\.IPMask\)\.Size\(` + reQ(cs) + `#1\.Mask\)#1`).MatchString(xs) {
 						maskFact = true
 					}
 				}
